@@ -161,16 +161,19 @@ void replay_foreign_workloads(Ctx & c)
   }
 void j_sqrt_algos(Ctx & c, int64_t x, int64_t, int64_t)
   {
-  if(x < 0 || x >= (1ll << 47)) return;
-  c.stratum("sqrt-algorithms-compared");
+  // up to 2^48 raw both algorithms return a value at HEAD (the abacus guard is at 2^48); where one of them answers NaN
+  // (outside its documented domain) there is nothing to compare
+  if(x < 0 || x >= (1ll << 48)) return;
+  c.stratum(x >= (1ll << 47) ? "sqrt-algorithms-compared-in-[2^47,2^48)" : "sqrt-algorithms-compared");
   if(x >= (1ll << 46) || x < 16) c.nontrivial(hash3(81, x, 0));
   for(size_t ci = 0; ci < g_cfgs.size(); ++ci)
     {
     CallRes a = c.call(SQ_AB.f[ci], x, 0), s = c.call(SQ_STD.f[ci], x, 0);
     if(a.sig || s.sig) { c.signal_event((int)ci, a.sig ? "sqrt_abacus" : "sqrt_std_math", x, 0, a.sig ? a.sig : s.sig); continue; }
+    if(x >= (1ll << 47) && (model_isnan(a.v) || model_isnan(s.v))) continue;
     int64_t d = a.v - s.v; if(d < 0) d = -d;
     if(d == 1) c.stratum("sqrt-algorithms-differ-by-1ulp");
-    if(d > 1) c.violation(std::string("sqrt_abacus-vs-sqrt_std_math/") + (x >= (1ll << 46) ? "x>=2^30" : "x<2^30") + "/differ-by-more-than-1ulp", (int)ci, x, 0, 0, i2s(a.v), i2s(s.v) + "+-1");
+    if(d > 1) c.violation(std::string("sqrt_abacus-vs-sqrt_std_math/") + (x >= (1ll << 47) ? "x>=2^31" : (x >= (1ll << 46) ? "x>=2^30" : "x<2^30")) + "/differ-by-more-than-1ulp", (int)ci, x, 0, 0, i2s(a.v), i2s(s.v) + "+-1");
     }
   }
 
@@ -267,6 +270,9 @@ void c08_run(Ctx & c)
   uint64_t n = c.share(c.n(400000, 40000000));
   for(uint64_t i = 0; i < n; ++i) c.run_check(SQ, c.rng.logu_pos(47));
   for(int k = 2; k <= 47; ++k) for(int64_t d = -200 + c.shard; d <= 200; d += c.nshards) { int64_t x = (1ll << k) + d; if(x >= 0 && x < (1ll << 47)) c.run_check(SQ, x); }
+  // the top binade of the abacus domain, [2^47, 2^48) raw
+  { uint64_t m = c.share(c.n(100000, 10000000)); for(uint64_t i = 0; i < m; ++i) c.run_check(SQ, (1ll << 47) + (int64_t)c.rng.below(1ull << 47));
+    for(int64_t d = c.shard; d <= 400; d += c.nshards) { c.run_check(SQ, (1ll << 47) + d); c.run_check(SQ, (1ll << 48) - 1 - d); } }
   }
 Property P_C07 = { "C07", diff_init, c07_run,
   { { "returns", j_returns, "entry point c (index in the sorted entry list) called with (a,b) returns normally (no signal) in every uninstrumented configuration" } },
@@ -275,7 +281,7 @@ Property P_C07 = { "C07", diff_init, c07_run,
 Registrar R_C07(&P_C07);
 Property P_C08 = { "C08", diff_init, c08_run,
   { { "diff", j_diff, "entry point c called with (a,b): results bit-identical in all configurations that select the same sqrt algorithm" },
-    { "sqrt_algos", j_sqrt_algos, "|sqrt_abacus(x) - sqrt_std_math(x)| <= 1 ulp for x in [0,2^47); a = raw" },
+    { "sqrt_algos", j_sqrt_algos, "|sqrt_abacus(x) - sqrt_std_math(x)| <= 1 ulp for raw x in [0,2^48) (above 2^47 only where both return a value); a = raw" },
     { "reassign", j_reassign, "stateful call-site shape c: an operation applied twice in one function with one operand object modified (xor 0x5a5a) in between; the second result must equal the plain entry point on the modified operands, at every optimisation level" } },
   { "domain-fixed,fixed", "domain-fixed,none", "domain-fixed,shift-count", "domain-int32-angle,none", "domain-float-bits,none", "domain-double-bits,none", "domain-fixed,uint64", "domain-fixed,double-bits", "sqrt-algorithms-compared", "stateful-shape", "constant-evaluator-cardinal-point" },
   "NaN-sentinel fixed arguments and shift counts from the boundary product, every 16th random tuple, sqrt arguments >= 2^46 raw or < 16; distinct by (entry,a,b)", {}, {} };
